@@ -3,6 +3,7 @@
 use vmon::{Args, Mon};
 
 mod c08;
+mod c08e2e;
 mod c09;
 mod c10;
 
